@@ -243,6 +243,38 @@ def text_claims(t1, t2, readback):
     return mism, claims
 
 
+V22_OPTION_LINES = ('HEADERROR', 'FLOWCHANGE', 'DEMAND MODEL', 'MINIMUM PRESSURE', 'REQUIRED PRESSURE', 'PRESSURE EXPONENT')
+
+
+def _vnorm(sec, line):
+    return [w for w in _TOKEN.sub('#', line).split() if not (sec == '[TANKS]' and w in ('YES', '*'))]
+
+
+def version_claims(t20, t22):
+    """the 2.0 file is the 2.2 file minus the EPANET 2.2-specific options (and the tank overflow column): same lines, same numbers"""
+    s20, s22 = sections(t20), sections(t22)
+    mism, claims = [], []
+    if set(s20) != set(s22):
+        return ['sections differ between the 2.0 and the 2.2 file: %r' % sorted(set(s20) ^ set(s22))], []
+    for sec in s22:
+        a22 = [l for l in s22[sec] if not (sec == '[OPTIONS]' and l.strip().upper().startswith(V22_OPTION_LINES))]
+        a20 = s20[sec]
+        if len(a20) != len(a22):
+            mism.append('%s: %d lines in the 2.0 file, %d comparable lines in the 2.2 file' % (sec, len(a20), len(a22)))
+            continue
+        for x, y in zip(a20, a22):
+            if _vnorm(sec, x) != _vnorm(sec, y):
+                mism.append('%s: 2.0 writes %r, 2.2 writes %r' % (sec, _TOKEN.sub('<num>', x).strip(), _TOKEN.sub('<num>', y).strip()))
+                continue
+            for tx, ty in zip(_TOKEN.findall(x), _TOKEN.findall(y)):
+                hx, hy = symx.TOKENS.lookup(tx), symx.TOKENS.lookup(ty)
+                if symx.parse_spec(hx[1]) != symx.parse_spec(hy[1]):
+                    mism.append('%s: format %r in 2.0, %r in 2.2' % (sec, hx[1], hy[1]))
+                else:
+                    claims.append((sec, real(hx[0]) == real(hy[0])))
+    return mism, claims
+
+
 def cycle(wn, units, version, d):
     f1, f2 = os.path.join(d, 'a.inp'), os.path.join(d, 'b.inp')
     NIO.write_inpfile(wn, f1, units=units, version=version)
@@ -260,8 +292,13 @@ def check_units(rep, units, version, var):
         def harness(c):
             V = SymVars(c)
             wn, syms = kitchen.build(V, var)
+            t22 = None
+            if version < 2.2:
+                f22 = os.path.join(d, 'v22.inp')
+                NIO.write_inpfile(wn, f22, units=units, version=2.2)
+                t22 = open(f22).read()
             out = cycle(wn, units, version, d)
-            return (V, c) + out
+            return (V, c) + out + (t22,)
         n = 0
         bad = set()
         cons = []
@@ -274,9 +311,18 @@ def check_units(rep, units, version, var):
                     m_ = symx.satisfiable(cons)
                     rep.counterexample('inp/%s/raised' % tag, dict(var=var, units=units, version=version, why='%s: %s' % (type(path.exc).__name__, _TOKEN.sub('<num>', str(path.exc))[:300])), 'inp')
                 continue
-            V, c, d0, d1, d2, t1, t2 = path.value
+            V, c, d0, d1, d2, t1, t2, t22 = path.value
             n0, n1, n2 = normalise(d0, version), normalise(d1, version), normalise(d2, version)
             wit = lambda mdl, V=V, what=None: V.witness(mdl, var=var, units=units, version=version)
+            if t22 is not None and 'version' not in bad:
+                mism, claims = version_claims(t1, t22)
+                if mism:
+                    bad.add('version')
+                    m_ = symx.satisfiable(cons)
+                    rep.counterexample('inp/%s/version-2.0-omits-only-2.2-options' % tag, dict(V.witness(m_.model, var=var, units=units, version=version), what='version', why='; '.join(mism[:4])), 'inp')
+                elif not rep.prove('inp/%s/version-2.0-omits-only-2.2-options/path%d' % (tag, n), cons, z3.And(*[cl for _, cl in claims]), wit, 'inp',
+                                   sample='%d numbers identical in the 2.0 and the 2.2 file' % len(claims)):
+                    bad.add('version')
             # --- equivalent
             mism, claims = [], []
             compare_tol(n0, n1, '', mism, claims)
@@ -499,6 +545,16 @@ def replay_inp(i):
         except Exception as ex:
             return 'write/read raised %s: %s' % (type(ex).__name__, str(ex)[:300])
         n0, n1, n2 = normalise(d0, version), normalise(d1, version), normalise(d2, version)
+        if version < 2.2:
+            f22 = os.path.join(d, 'v22.inp')
+            NIO.write_inpfile(wn, f22, units=units, version=2.2)
+            s20, s22 = sections(t1), sections(open(f22).read())
+            for sec in s22:
+                a22 = [l for l in s22[sec] if not (sec == '[OPTIONS]' and l.strip().upper().startswith(V22_OPTION_LINES))]
+                a20 = s20.get(sec, [])
+                if [_vnorm(sec, l) for l in a20] != [_vnorm(sec, l) for l in a22]:
+                    dl = [(x.strip(), y.strip()) for x, y in zip(a20, a22) if _vnorm(sec, x) != _vnorm(sec, y)][:2]
+                    return 'the 2.0 file differs from the 2.2 file beyond the 2.2-specific options in %s: %r' % (sec, dl or (len(a20), len(a22)))
         mism, _ = [], []
         compare_tol(n0, n1, '', mism, _)
         if mism:
